@@ -217,7 +217,26 @@ pub struct Parser<R> {
     error_index: usize,   // mark the error position
     nospace_bits: u64,    // SIMD marked nospace bitmap
     nospace_start: isize, // the start position of nospace_bits
+    depth: usize,         // nesting depth of the containers being parsed or skipped
     pub(crate) cfg: DeserializeCfg,
+}
+
+// the limit named by `ErrorCode::RecursionLimitExceeded`
+const MAX_NESTED_DEPTH: usize = 128;
+
+// run the parser of a nested container within the depth limit
+macro_rules! nested {
+    ($self:ident, $e:expr) => {{
+        $self.depth += 1;
+        if $self.depth > MAX_NESTED_DEPTH {
+            $self.depth -= 1;
+            perr!($self, RecursionLimitExceeded)
+        } else {
+            let ret = $e;
+            $self.depth -= 1;
+            ret
+        }
+    }};
 }
 
 /// Records the parse status
@@ -246,6 +265,7 @@ where
             error_index: usize::MAX,
             nospace_bits: 0,
             nospace_start: -128,
+            depth: 0,
             cfg: DeserializeCfg::default(),
         }
     }
@@ -389,8 +409,8 @@ where
             match first {
                 Some(c @ b'-' | c @ b'0'..=b'9') => self.parse_number_inplace(c, vis),
                 Some(b'"') => self.parse_string_inplace(vis),
-                Some(b'{') => self.parse_object(vis),
-                Some(b'[') => self.parse_array(vis),
+                Some(b'{') => nested!(self, self.parse_object(vis)),
+                Some(b'[') => nested!(self, self.parse_array(vis)),
                 Some(first) => self.parse_literal_visit(first, vis),
                 None => perr!(self, EofWhileParsing),
             }?;
@@ -539,8 +559,8 @@ where
         match self.skip_space() {
             Some(c @ b'-' | c @ b'0'..=b'9') => self.parse_number_inplace(c, visitor),
             Some(b'"') => self.parse_string_inplace(visitor),
-            Some(b'{') => self.parse_object(visitor),
-            Some(b'[') => self.parse_array(visitor),
+            Some(b'{') => nested!(self, self.parse_object(visitor)),
+            Some(b'[') => nested!(self, self.parse_array(visitor)),
             Some(first) => self.parse_literal_visit(first, visitor),
             None => return perr!(self, EofWhileParsing),
         }?;
@@ -697,8 +717,8 @@ where
         match self.skip_space() {
             Some(c @ b'-' | c @ b'0'..=b'9') => self.parse_number_visit(c, vis),
             Some(b'"') => self.parse_string_owned(vis, strbuf),
-            Some(b'{') => self.parse_object2(vis, strbuf),
-            Some(b'[') => self.parse_array2(vis, strbuf),
+            Some(b'{') => nested!(self, self.parse_object2(vis, strbuf)),
+            Some(b'[') => nested!(self, self.parse_array2(vis, strbuf)),
             Some(first) => self.parse_literal_visit(first, vis),
             None => perr!(self, EofWhileParsing),
         }
@@ -753,8 +773,8 @@ where
             match first {
                 Some(c @ b'-' | c @ b'0'..=b'9') => self.parse_number_visit(c, visitor),
                 Some(b'"') => self.parse_string_owned(visitor, strbuf),
-                Some(b'{') => self.parse_object2(visitor, strbuf),
-                Some(b'[') => self.parse_array2(visitor, strbuf),
+                Some(b'{') => nested!(self, self.parse_object2(visitor, strbuf)),
+                Some(b'[') => nested!(self, self.parse_array2(visitor, strbuf)),
                 Some(first) => self.parse_literal_visit(first, visitor),
                 None => perr!(self, EofWhileParsing),
             }?;
@@ -1570,8 +1590,8 @@ where
                 status = self.skip_string()?;
                 Ok(())
             }
-            Some(b'{') => self.skip_object(),
-            Some(b'[') => self.skip_array(),
+            Some(b'{') => nested!(self, self.skip_object()),
+            Some(b'[') => nested!(self, self.skip_array()),
             Some(b't') => self.parse_literal("rue"),
             Some(b'f') => self.parse_literal("alse"),
             Some(b'n') => self.parse_literal("ull"),
